@@ -3,7 +3,9 @@
 //   replay_unauth unauth-bind     -> a connection that never authenticated sends a bind request: is a resource bound / answered?  (C16-F1)
 //   replay_unauth unauth-session  -> ... sends a session request: is it answered?                                                  (C16-F1)
 //   replay_unauth spoof-from      -> control: an AUTHENTICATED user sends <message from=victim/>: must NOT be delivered
+//   replay_unauth prefix-from     -> control: an authenticated user sends a from that is a proper PREFIX of her own JID (someone else's address): must NOT be delivered
 //   replay_unauth good-from       -> control: an authenticated user's message is delivered stamped with her own full JID
+//   replay_unauth anonymous-auth  -> control: <auth mechanism='ANONYMOUS'/> (a mechanism QXmppSaslServer::create builds although it is never offered) must not authenticate
 //   replay_unauth wrong-password  -> control: one PLAIN <auth/> with a wrong password must be refused and leave the connection without a JID
 //   replay_unauth pipelined-auth  -> two PLAIN <auth/> in one segment (own valid credentials, then victim + wrong password):
 //                                    which JID does the server assign when the first reply arrives?                       (finding C16-F2)
@@ -175,7 +177,7 @@ int main(int argc, char **argv)
     }
 
     bool violated = false;
-    if (mode == "unauth-message" || mode == "spoof-from" || mode == "good-from") {
+    if (mode == "unauth-message" || mode == "spoof-from" || mode == "prefix-from" || mode == "good-from") {
         Peer victim("VICTIM");
         if (!victim.open(port) || !victim.login("victim", "victim-pw", "phone")) {
             std::printf("victim could not log in\n");
@@ -194,6 +196,12 @@ int main(int argc, char **argv)
                 return 2;
             }
             attacker.send("<message from='victim@example.org/phone' to='victim@example.org/phone' type='chat'><body>spoofed-body-from-nobody</body></message>");
+        } else if (mode == "prefix-from") {
+            if (!attacker.login("mallory", "mallory-pw", "pc")) {
+                return 2;
+            }
+            // "mal" is another account name; it is a prefix of mallory@example.org/pc
+            attacker.send("<message from='mal' to='victim@example.org/phone' type='chat'><body>spoofed-body-from-nobody</body></message>");
         } else {
             if (!attacker.login("mallory", "mallory-pw", "pc")) {
                 return 2;
@@ -223,6 +231,22 @@ int main(int argc, char **argv)
         std::printf("unauthenticated %s request answered with a result: %s; server announced bound clients: %d\n",
                     mode == "unauth-bind" ? "bind" : "session", answered ? "YES" : "no", int(serverSaw.size()));
         violated = answered || !serverSaw.isEmpty();
+    } else if (mode == "anonymous-auth") {
+        Peer attacker("ATTACKER");
+        if (!attacker.open(port)) {
+            return 2;
+        }
+        attacker.send("<auth xmlns='urn:ietf:params:xml:ns:xmpp-sasl' mechanism='ANONYMOUS'/>");
+        waitFor([&] { return attacker.rx.contains("<failure") || attacker.rx.contains("<success"); }, 1500);
+        bool bound = false;
+        if (attacker.rx.contains("<success")) {
+            attacker.header();
+            attacker.send("<iq type='set' id='bind1'><bind xmlns='urn:ietf:params:xml:ns:xmpp-bind'><resource>anon</resource></bind></iq>");
+            bound = waitFor([&] { return attacker.rx.contains("id=\"bind1\"") && attacker.rx.contains("type=\"result\""); }, 1000);
+        }
+        std::printf("control: <auth mechanism='ANONYMOUS'/> answered with <success/>: %s; resource bound without any password check: %s\n",
+                    attacker.rx.contains("<success") ? "YES" : "no", bound ? "YES" : "no");
+        violated = attacker.rx.contains("<success") || bound;
     } else if (mode == "wrong-password") {
         QString jidAtRefusal;
         QObject::connect(&server, &QXmppServer::updateCounter, [&](const QString &counter) {
